@@ -43,6 +43,7 @@ BLOCKSIZES = (1024, 4096)
 # deviations of the pinned tree that are modelled literally (DESIGN 3.5); all FALSE = repaired behaviour
 DEV = {"DevMkdirNoNlinkRule": "FALSE", "DevKillLeaksEaBlock": "FALSE", "DevMkdirExistsLeak": "FALSE", "DevSymlinkExistsLeak": "FALSE"}
 
+DEV_ORDER = ["DevSymlinkExistsLeak", "DevMkdirExistsLeak", "DevKillLeaksEaBlock", "DevMkdirNoNlinkRule"]   # naming a rejected behaviour: tried in this order
 FT = {"mkdir": 2, "create": 1, "symlink": 7}
 LOCK = threading.Lock()
 
@@ -634,7 +635,8 @@ def universe(tier, rng, cat):
         sc = big_script(n1, n2, ln)
         specs.append(dict(prof=p, bs=b, front=fe, seed=1, nsteps=len(sc), raw=0, big=1, script=sc))
     bspecs, skipped = boundary_specs(tier, cat, rng)
-    return specs + refusal_specs(tier) + bspecs, skipped
+    # the refusal behaviours go last (tracecheck re-runs, one process each, whatever stands behind a rejected behaviour of a chunk)
+    return specs + bspecs + refusal_specs(tier), skipped
 
 
 # ------------------------------------------------------------------------------------------------ boundary catalogue
@@ -764,22 +766,26 @@ def boundary_specs(tier, cat, rng):
     return specs, skipped
 
 
+REFUSALS = [("mkdir", "mkdir 2 %s"), ("write", "create 2 %s 0"), ("symlink", "symlink 2 %s 10"), ("slowlink", "symlink 2 %s 200")]
+
+
 def refusal_specs(tier):
-    """mkdir / symlink / write of an existing name, for every kind of existing object: refused, nothing changes; e2fsck -fn after each"""
+    """Dir!RefusedExists: mkdir / write / symlink (fast and slow) of an existing name, for every kind of existing object (directory,
+    file, symlink): refused, nothing changes; e2fsck -fn after each request; then an allocation (which takes the inode a refused
+    request may have touched) and e2fsck -fyD.  One behaviour per request kind, so that a defect of one kind does not hide the others.
+    quick: every profile with one (seed-independent) block size / front end; thorough: every profile x block size x front end."""
     specs = []
-    for prof in PROFILES:
-        for bs in BLOCKSIZES:
-            for fe in ("lib", "dbg"):
-                if tier == "quick" and (list(PROFILES).index(prof) + BLOCKSIZES.index(bs) + ("lib", "dbg").index(fe)) % 2:
+    for pi, prof in enumerate(PROFILES):
+        for bi, bs in enumerate(BLOCKSIZES):
+            for fi, fe in enumerate(("lib", "dbg")):
+                if tier == "quick" and (bi != pi % 2 or fi != (pi // 2) % 2):
                     continue
-                sc = [{"kind": "step", "ops": ["mkdir 2 ed"]}, {"kind": "step", "ops": ["create 2 ef 100"]}, {"kind": "step", "ops": ["symlink 2 es 10"]}]
-                for req in ("mkdir 2 %s", "create 2 %s 0", "symlink 2 %s 10", "symlink 2 %s 200"):
+                for kind, req in REFUSALS:
+                    sc = [{"kind": "step", "ops": ["mkdir 2 ed"]}, {"kind": "step", "ops": ["create 2 ef 100"]}, {"kind": "step", "ops": ["symlink 2 es 10"]}]
                     for victim in ("ed", "ef", "es"):
                         sc += [{"kind": "step", "ops": [req % victim]}, {"kind": "fsckn", "ops": []}]
-                    if req.startswith("mkdir"):       # the next allocation takes the inode a refused request may have touched
-                        sc += [{"kind": "step", "ops": ["mkdir 2 ed2"]}, {"kind": "fsckD", "ops": []}]
-                sc += [{"kind": "step", "ops": ["mknod 2 ep p"]}, {"kind": "fsckn", "ops": []}]
-                specs.append(dict(prof=prof, bs=bs, front=fe, seed=1, nsteps=len(sc), raw=0, big=0, script=sc, cat=dict(kind="refusal")))
+                    sc += [{"kind": "step", "ops": ["mkdir 2 ed2"]}, {"kind": "fsckD", "ops": []}, {"kind": "step", "ops": ["mknod 2 ep p"]}, {"kind": "fsckn", "ops": []}]
+                    specs.append(dict(prof=prof, bs=bs, front=fe, seed=1, nsteps=len(sc), raw=0, big=0, script=sc, cat=dict(kind="refusal", req=kind)))
     return specs
 
 
@@ -878,7 +884,7 @@ def run(tier):
             # a rejected behaviour that IS a behaviour of the specification with exactly one literal deviation enabled shows that
             # deviation: it is reported under the deviation's name (a listed known finding prints KNOWN-FINDING, anything else VIOLATION)
             named = {}
-            for dev in sorted(DEV):
+            for dev in DEV_ORDER:
                 rest = [bi for bi in failed if bi not in named]
                 if not rest:
                     break
@@ -890,8 +896,12 @@ def run(tier):
                 for k, bi in enumerate(rest):
                     if k not in bad:
                         named[bi] = dev
+            first = {f["behaviour"]: f["line_in_behaviour"] for f in reversed(res["failures"])}
             for bi in failed:
-                rej, matched, inv, tail, _ = tracecheck.confirm(tb[bi], os.path.join(SPEC, "Trace_Dir.tla"), cfgp, work, timeout=900)
+                if bi in named:             # rejected as specified, accepted with the deviation: two TLC runs already
+                    rej, matched = True, first.get(bi, 0)
+                else:
+                    rej, matched, inv, tail, _ = tracecheck.confirm(tb[bi], os.path.join(SPEC, "Trace_Dir.tla"), cfgp, work, timeout=900)
                 if not rej:
                     continue
                 nfail += 1
@@ -912,6 +922,7 @@ def run(tier):
                 tot[k] = tot.get(k, 0) + v
             if nontrivial(bh):
                 ev.nontrivial(hashlib.sha1(json.dumps(bh["steps"], sort_keys=True).encode()).hexdigest())
+        tot["refused_requests"] = sum(1 for bh in behs if (bh["spec"].get("cat") or {}).get("kind") == "refusal" for st in bh["steps"][3:9] if st["kind"] == "step")
         ev.cov["exercised"] = tot
         planned, seen = set(), set()
         for bh in behs:
